@@ -90,13 +90,14 @@ PROPS["C09"] = dict(
 CHESS_TRUST = ["decoding of FEN text in the driver uses Model.Fen.decode (itself tied by the fen streams)"]
 
 PROPS["C01"] = dict(
-    modules=["Morlock.Props.C01", "Morlock.Props.GenTie"],
+    modules=["Morlock.Props.C01", "Morlock.Props.C01Describe", "Morlock.Props.GenTie", "Morlock.Props.GenTieExamples"],
     streams=["c01"],
     level_text="Lean theorems (full): on every position whose views agree (Rep) and that satisfies the decidable WF (at most one king per side, castling rights imply the king at home, "
                "an e.p. target only on the right rank, empty, behind an enemy pawn) the model's legal moves, read through absMove, are a PERMUTATION of the FIDE legal moves of the "
                "reference semantics (legal_perm: exactly the set, each once); per move kind: officers, king steps, pawn pushes / double steps / captures / promotions x4 / en passant, "
-               "both castlings (officers_iff, pawns_iff, castles_iff, pseudo_iff, pseudo_nodup); every generated move carries accurate kind / piece / capture metadata "
-               "(pseudo_metaOK: MetaOK and ClassOK); Move accepts a generated move iff the rules call it legal (move_isSome_iff_legal); WF is proved necessary (two kings). Reachability: the invariant WFplay (WF and the side not to move is not in check) holds at "
+               "both castlings (officers_iff, pawns_iff, castles_iff, pseudo_iff, pseudo_nodup); every generated move carries accurate kind / piece / capture metadata: "
+               "its MoveType, piece and captured piece are exactly what the reference's Spec.describe says about that move in that position (C01Describe.pseudo_describe; "
+               "pseudo_metaOK gives the weaker MetaOK and ClassOK the refinement proofs use); Move accepts a generated move iff the rules call it legal (move_isSome_iff_legal); WF is proved necessary (two kings). Reachability: the invariant WFplay (WF and the side not to move is not in check) holds at "
                "the start position and is preserved by every generated move that Move accepts (wf_preserved; plain WF alone is NOT preserved - wf_not_preserved exhibits the "
                "king capture), hence every position reachable by generated moves satisfies all of the above (reachable_wf, reachable_refines, reachable_legal). The enums, "
                "piece lists and masks the generator depends on are re-proved equal to the Go source on every run (GenTie). Tie: ordered move lists with all six fields and legality "
@@ -170,26 +171,29 @@ PROPS["C02"] = dict(
     modules=["Morlock.Props.C02", "Morlock.Props.GenTie"],
     streams=["c02", "playq"],
     level_text="Lean theorems (full): a relation Rep p b ('bitboard position p represents mailbox board b': occupancy, colour sets, twelve piece sets, three rotated boards, "
-               "nothing set >= 64) is established by NewPosition and preserved by every xor; for every move whose metadata is accurate (MetaOK, decidable) Position.Move yields "
+               "nothing set >= 64) is established by NewPosition and preserved by the xors Move makes (placing on an empty square, removing exactly the piece that stands there); for every move whose metadata is accurate (MetaOK, decidable) Position.Move yields "
                "a position representing exactly the board the rules prescribe (origin emptied, promoted piece, e.p. victim removed, rook hop), with castling rights = old "
-               "minus those of every home square touched and the e.p. target set iff double step; abs p' = Spec.apply (abs p) m; lifted over all move sequences "
+               "minus those of every home square touched and the e.p. target set iff double step; abs p' = Spec.apply (abs p) m (for moves with MetaOK, ClassOK and LandOK - all generated moves have them); lifted over all move sequences "
                "(reachable_rep, play_refines) - so a redundant view can never disagree later. 'MetaOK holds for every generated move' of every position reachable by generated moves from a well-formed start is C01.reachable_wf.",
     level_note="Trusted: Lean kernel; Model.Position tied by apply/playq streams (successor FEN, rights, e.p., views agreement after every move, source position untouched).",
     technique="Lean 4 refinement proof (Rep relation preserved by xor; Move = <= 4 xors) + differential impl/model/spec on all pseudo-legal moves of generated positions",
     rule="every pseudo-legal move (legal and illegal) of generated positions applied on impl, model and spec; played lines without re-decoding; non-trivial = special move kinds "
          "(capture, e.p., castling, promotion, jump) / lines containing them; distinct by (position, move) or line",
-    partial=[],
+    partial=["'the position moved from is left untouched' holds by construction in the (pure) model; that Go's copy `ret := *p` really isolates the source is decided by the stream (source re-observed after every move)"],
     modelled=["board/position.go: NewPosition, xor, Move, Square, IsEmpty; board/move.go: EnPassantTarget, EnPassantCapture, CastlingRookMove, CastlingRightsLost; RotatedBitboard.Xor"],
 )
 
 PROPS["C07"] = dict(
-    modules=["Morlock.Props.C07"],
+    modules=["Morlock.Props.C07", "Morlock.Props.C07Board", "Morlock.Props.GenTieExamples"],
     streams=["game"],
     level_text="Lean theorems (full, for EVERY table z with z.enpassant 0 = 0): the incremental update ZobristTable.Move applied to Hash(p) equals Hash of the successor for "
                "every accurate move (all kinds: capture, promotion, e.p., both castlings), and two represented positions differing in exactly one square / the rights / the "
-               "e.p. target / the side have hashes differing by the xor of the two keys involved (hence different when those keys differ). Over push/pop/fork the board hash is "
-               "the node's stored hash (C08), so path independence follows. Tie: Board.Hash() vs Hash-from-scratch after every operation for table seeds 0, 1 and a random one, "
-               "keys recovered through the exported Hash so that impl vs model is bit-exact.",
+               "e.p. target / the side have hashes differing by the xor of the two keys involved (hence different when those keys differ). At BOARD level (C07Board): on every board "
+               "descending from a set-up on a well-formed position by generated moves, take-backs and forks in any order (GenBoard), the hash the board maintains equals the "
+               "from-scratch hash of the position and side it has reached (hash_eq_scratch), hence two such boards - any worlds, histories, clocks - that reached the same position and "
+               "side report the same hash (hash_path_independent). The hypothesis z.enpassant 0 = 0 is a fact about NewZobristTable (it fills only the e.p. keys of ranks 3 and 6) tied by "
+               "the stream (the recovered key of square 0 is compared), not extracted. Tie: Board.Hash() vs Hash-from-scratch after every operation for table seeds 0, 1, a random one and "
+               "the edges of the seed domain, keys recovered through the exported Hash so that impl vs model is bit-exact; every recovered table is judged (separating keys non-zero, distinct).",
     level_note="Trusted: Lean kernel; Model.Zobrist tied bit-exactly by the game stream; math/rand table generation not modelled (the theorems quantify over all tables).",
     technique="Lean 4 proof (hash as xor-fold over squares; Move touches <= 4 squares) + differential game histories with hash columns",
     rule="game histories (push/pop/fork over up to 4 boards) from corpus/synthetic starts with castling, e.p., promotions; hash and scratch hash printed after every op; "
@@ -203,18 +207,19 @@ PROPS["C08"] = dict(
     level_text="Lean theorems (full) on an arena model of the pointer-linked history: push then pop restores every observation (position, side, hash, clock, ply, full moves, "
                "castled flags, last / second-to-last move, HasMoved(k) for every k, the repetition map) and leaves a not-drawn result, at any nesting depth (pushes_pops), "
                "play continues identically afterwards (continue_identically), operations on a fork and on the original that stay at or above the fork point are isolated from "
-               "each other for every interleaving (fork_isolated), both see the common past (fork_shares_past, fork_replays). The hypotheses that are needed are proved "
+               "each other for every interleaving of moves and take-backs on the original and ONE fork (fork_isolated; further forks inside the interleaving, three or more boards and adjudication are covered by the stream, which uses up to four boards), both see the common past (fork_shares_past, fork_replays). The hypotheses that are needed are proved "
                "necessary (castled_flag_lost, pop_below_fork_clobbers).",
     level_note="Trusted: Lean kernel; Model.Board arena transcription tied by the game stream (all getters of all boards after every operation).",
     technique="Lean 4 proof over an append-only arena (views erased of indices; separation invariant for forks) + differential op sequences over up to 4 boards",
     rule="random interleavings of push / pop / fork / switch over 1-4 boards, pops never below a fork point; all getters of every board compared after every op; "
          "non-trivial = script with fork or pop or special move; distinct by script",
-    partial=["castled flags are restored under CastleOnce (a side castles at most once along a line - guaranteed by chess, not checked by the board)"],
+    partial=["castled flags are restored under CastleOnce (a side castles at most once along a line - guaranteed by chess, not checked by the board)",
+             "fork isolation is a theorem for two boards (original + one fork) under moves and take-backs; more boards / nested forks / adjudication: stream"],
     modelled=["board/board.go: NewBoard, Fork, PushMove, PopMove, LastMove, SecondToLastMove, HasMoved, HasCastled, getters -> Model.Board"],
 )
 
 PROPS["C05"] = dict(
-    modules=["Morlock.Props.C05", "Morlock.Props.GenTie"],
+    modules=["Morlock.Props.C05", "Morlock.Props.C07Board", "Morlock.Props.GenTie"],
     streams=["game"],
     level_text="Lean theorems (full): PushMove reports a draw iff the position just reached has occurred >= 3 times on the WHOLE line (start included) or the clock >= 100 or the "
                "move was a capture / under-promotion into insufficient material, with the reason by precedence and 'five-fold' from 5 (draw_iff, draw_sound, draw_complete, "
@@ -226,10 +231,14 @@ PROPS["C05"] = dict(
                "histories the reported result vs the draw conditions recomputed from the whole history by the reference.",
     level_note="Trusted: Lean kernel; Model.Board tied by the game stream; Spec.Game as the reference. The hypotheses 'moves are generated moves of the side to move' (GoodMove / MoveSound) are now DERIVED from the generator for every "
                "game played with generated moves from a well-formed start (pseudo_moveSound, draw_iff_reachable, game_link_reachable; invariant WFplay = WF + side not to move not in check, "
-               "preserved by every accepted generated move: C01.wf_preserved); set-up clock >= 0 and two kings for the material rule remain hypotheses on the start. Reason precedence when several conditions hold is not prescribed by the property: any holding reason is accepted by the stream.",
+               "preserved by every accepted generated move: C01.wf_preserved), and - C07Board.draw_iff_genBoard - for every board descending from such a set-up by generated moves, TAKE-BACKS and "
+               "FORKS in any order (GenBoard; invariant: every node of the line satisfies WFplay); set-up clock >= 0 and two kings for the material rule remain hypotheses on the start. "
+               "The link to the reference Spec.Game (spec_link, game_link) is proved for linear games; after take-backs and on forks it is decided by the stream. Reason precedence when several conditions hold is not prescribed by the property: any holding reason is accepted by the stream.",
     technique="Lean 4 refinement proof (arena line vs whole-history count; decreasing measure for irreversibility; C07 for hash faithfulness) + differential game histories",
     rule="histories in 4 styles (biased, shuffling, quiet, mixed) from 24 draw-prone starts + corpus + synthetic; non-trivial = history reaching a draw (rep3/rep5/np/mat), adjudication, fork, pop or special move; distinct by script",
-    partial=[],
+    partial=["the link to the whole-history reference Spec.Game is a theorem for linear games (set-up + pushes); after take-backs / on forks the draw verdict is a theorem (draw_iff_genBoard) "
+             "but its equality with the reference is decided by the stream",
+             "operations on OTHER boards interleaved between the steps of one board rest on C08.fork_isolated (one fork)"],
     modelled=["board/board.go: PushMove draw logic, identicalPositionCount, updateNoProgress, AdjudicateNoLegalMoves; position.go HasInsufficientMaterial -> Model.Board / Model.Position"],
 )
 
